@@ -6,6 +6,7 @@ CONSTANTS RF1 = {1, 2, 3}
           RF2 = {2}
           N2 = 3
           Outcomes = {"ok", "conflict", "unavailable", "other", "noconn", "notready"}
+          Outcomes2 = {"ok", "conflict", "unavailable", "noconn"}
           ReplThresholdIsQuorum = FALSE
           WithTimeout = TRUE
           CaseRF1 = {1, 2, 3, 4}
